@@ -31,8 +31,11 @@ ShortViol(r) ==
                 THEN {} ELSE {<<"C01", "from_bytes-accepts-iff-status-valid">>})
         panicked == valid /\ (\E j \in 4..8 : r[j] = -2)
     IN IF panicked
-       THEN {<<"C01", "from_bytes-panics">>, <<"C02", "structured-not-constructible">>,
-             <<"C03", "structured-not-constructible">>, <<"C18", "panic">>}
+       THEN {<<"C01", "from_bytes-panics">>, <<"C18", "panic">>}
+            \* only when the structured form itself cannot be built do the accessors (C02) and the
+            \* representation independence (C03) fail with it
+            \cup (IF r[5] = -2 THEN {<<"C02", "structured-not-constructible">>, <<"C03", "structured-not-constructible">>}
+                  ELSE {})
        ELSE IF ~valid \/ Len(r) <= 10
        THEN oks \cup (IF Len(r) = 9 /\ r[9] = 0 THEN {} ELSE
                       {<<"C18", IF Len(r) = 10 THEN "panic-constructing-structured" ELSE "alloc">>})
@@ -54,7 +57,8 @@ ShortViol(r) ==
            \* 4 = re-entrant third-party adapter, 5 = structure-keeping third-party implementor,
            \* 6 = its factory and conversions, 7 = the same answers after unrelated calls,
            \* 8 = tuple conversion and Clone agree with from_bytes
-           F2Props(j) == CASE j \in {1, 2, 3, 7} -> {"C02", "C03"}
+           F2Props(j) == CASE j \in {1, 7} -> {"C02", "C03"}
+                           [] j \in {2, 3} -> {"C02"}      \* inherent methods: what callers of the concrete type get
                            [] j \in {4, 5} -> {"C03"}
                            [] j = 6 -> {"C01", "C03"}
                            [] OTHER -> {"C01"}
@@ -172,7 +176,11 @@ IntsViol(r) ==
            \cup (IF r[5] = 1 \/ r[7] = 0 THEN {} ELSE {<<"C18", "ints">>})
       [] r[1] = 6 ->                 \* parse: [6,cfg,T,ok,res,al,n,c1..cn]
            LET cs == SubSeq(r, 8, 7 + r[7])  want == ParseOk(T, cs) IN
-           (IF r[4] = B2I(want) THEN {} ELSE Both("parse-accepts-iff-numeral-in-range"))
+           \* C04: parsing fails exactly for out-of-range input (an in-range numeral rejected, an out-of-range one
+           \* accepted); C05: exactly the unsigned decimal numerals are accepted (anything else accepted: C05 only)
+           (IF r[4] = B2I(want) THEN {}
+            ELSE IF IsNumeral(cs) THEN Both("parse-accepts-iff-numeral-in-range")
+            ELSE {<<"C05", "parse-accepts-iff-numeral-in-range">>})
            \cup (IF r[4] = 1 /\ ~InRange(T, r[5]) THEN {<<"C04", "out-of-range-value">>} ELSE {})
            \cup (IF r[4] = 1 /\ want /\ r[5] # NumeralValue(cs) THEN {<<"C05", "parse-value">>} ELSE {})
            \cup (IF r[6] = 0 /\ r[4] # -2 THEN {} ELSE {<<"C18", "ints">>})
@@ -190,8 +198,8 @@ IntsViol(r) ==
       [] r[1] = 9 ->                 \* consts: [9,cfg,T,MIN,MAX,default]
            (IF r[4] = 0 /\ r[5] = MaxOf(T) /\ r[6] = 0 THEN {} ELSE Both("min-max-default"))
       [] r[1] = 10 ->                \* new_unchecked within its contract: [10,cfg,T,v,res,al]
-           (IF InRange(T, r[5]) THEN {} ELSE {<<"C04", "out-of-range-value">>})
-           \cup (IF r[5] = r[4] THEN {} ELSE {<<"C05", "new_unchecked-value">>})
+           \* (`new_unchecked` is unsafe API: outside C04's "safe public API"; value fidelity is growth)
+           (IF r[5] = r[4] THEN {} ELSE {<<"GROWTH", "new_unchecked-value">>})
            \cup (IF r[6] = 0 /\ r[5] # -2 THEN {} ELSE {<<"C18", "ints">>})
       [] r[1] = 11 ->                \* formatting with flags / width / Debug: [11,cfg,T,v,spec,al,n,c1..cn]
            \* C18: "formatting of the integer types" neither allocates nor panics, whatever the format spec
@@ -294,8 +302,10 @@ SerdeViol(r) ==
                             \* formats of tree_de.rs (10 + 10 * way + {0 number, 1 byte string, 2 string, 3 [n]})
            (IF r[6] = -2 THEN {<<"C19", "deserialize-panics">>} ELSE {})
            \cup (IF r[6] = 1 /\ ~InRange(r[2], r[7]) THEN {<<"C19", "int-out-of-range-accepted">>} ELSE {})
+           \* an in-range integer in the natural form comes out unchanged; an out-of-range one that is accepted
+           \* with an in-range result (masking, clamping) is within the letter of C19: a NOTE, not a verdict
            \cup (IF r[6] = 1 /\ (r[3] = 0 \/ (r[3] >= 10 /\ r[3] % 10 = 0)) /\ ~(r[4] = 0 /\ r[7] = r[5])
-                 THEN {<<"C19", "int-value-changed">>} ELSE {})
+                 THEN {<<IF TryOk(r[2], r[4], r[5]) THEN "C19" ELSE "NOTE", "int-value-changed">>} ELSE {})
            \cup (IF r[3] = 0 /\ TryOk(r[2], r[4], r[5]) /\ r[6] # 1 THEN {<<"C19", "int-valid-rejected">>} ELSE {})
       [] r[1] = 1 ->        \* [1,T,src,cls,v,ok,res]; serde primitive value deserializers
            (IF r[6] = -2 THEN {<<"C19", "deserialize-panics">>} ELSE {})
@@ -306,9 +316,11 @@ SerdeViol(r) ==
       \* Composite types.  The inputs are natural representations with fields patched to the listed values.
       \* Accepted rows end with `alias`: 1 = the input IS the natural representation of the value that came out
       \* (in a representation that packs several fields into one number, a patched "out-of-range field" can be
-      \* the representation of another valid value; accepting that is right).  Demanded: whatever comes out could
-      \* have been built through the checked constructors; an input with an out-of-range / inconsistent field
-      \* that is nobody's natural representation is rejected; valid inputs come out unchanged.
+      \* the representation of another valid value).  Demanded (C19, by the letter): whatever comes out could have
+      \* been built through the checked constructors; valid inputs - which are natural representations: the
+      \* templates are verified against them - are accepted (JSON) and come out unchanged.  An input with an
+      \* out-of-range / inconsistent field that is nobody's natural representation and is accepted with a
+      \* constructible result (masking, defaulting) is reported as a NOTE, not as a violation.
       [] r[1] \in {2, 12} ->   \* RawShortMessage from [s,d1,d2] (12: other data formats / byte strings - no completeness)
            IF r[2] = -9 THEN (IF r[5] = -2 THEN {<<"C19", "deserialize-panics">>} ELSE {})
            ELSE LET valid == ValidStatus(r[2]) /\ r[3] \in 0..127 /\ r[4] \in 0..127
@@ -316,7 +328,7 @@ SerdeViol(r) ==
                 (IF r[5] = -2 THEN {<<"C19", "deserialize-panics">>} ELSE {})
                 \cup (IF r[5] = 1 /\ ~(ValidStatus(r[6]) /\ r[7] \in 0..127 /\ r[8] \in 0..127)
                       THEN {<<"C19", "raw-invalid-accepted">>} ELSE {})
-                \cup (IF r[5] = 1 /\ ~valid /\ ~alias THEN {<<"C19", "raw-invalid-accepted">>} ELSE {})
+                \cup (IF r[5] = 1 /\ ~valid /\ ~alias THEN {<<"NOTE", "raw-non-natural-input-accepted">>} ELSE {})
                 \cup (IF r[1] = 2 /\ valid /\ r[5] # 1 THEN {<<"C19", "raw-valid-rejected">>} ELSE {})
                 \cup (IF valid /\ r[5] = 1 /\ ~(<<r[6], r[7], r[8]>> = <<r[2], r[3], r[4]>> /\ r[9] = TypeOf(r[2]))
                       THEN {<<"C19", "raw-value-changed">>} ELSE {})
@@ -327,7 +339,7 @@ SerdeViol(r) ==
            (IF r[5] = -2 THEN {<<"C19", "deserialize-panics">>} ELSE {})
            \cup (IF r[5] = 1 /\ ~(r[6] \in 0..15 /\ r[7] \in 0..31 /\ r[8] \in 0..16383)
                  THEN {<<"C19", "cc14-invalid-accepted">>} ELSE {})
-           \cup (IF r[5] = 1 /\ ~valid /\ ~alias THEN {<<"C19", "cc14-invalid-accepted">>} ELSE {})
+           \cup (IF r[5] = 1 /\ ~valid /\ ~alias THEN {<<"NOTE", "cc14-non-natural-input-accepted">>} ELSE {})
            \cup (IF r[1] = 3 /\ valid /\ r[5] # 1 THEN {<<"C19", "cc14-valid-rejected">>} ELSE {})
            \cup (IF r[5] = 1 /\ (r[9] = -2 \/ r[10] = -2) THEN {<<"C19", "cc14-accessor-panics-after-deserialize">>} ELSE {})
            \cup (IF valid /\ r[5] = 1 /\ ~(<<r[6], r[7], r[8]>> = <<r[2], r[3], r[4]>> /\ r[9] = r[3] + 32 /\ r[10] = r[3] + 32)
@@ -338,7 +350,7 @@ SerdeViol(r) ==
                alias == r[8] = 1 /\ r[16] = 1 IN
            (IF r[8] = -2 THEN {<<"C19", "deserialize-panics">>} ELSE {})
            \cup (IF r[8] = 1 /\ ~(r[14] <= 2 /\ PnValid(Sub(r, 9, 6))) THEN {<<"C19", "pn-inconsistent-accepted">>} ELSE {})
-           \cup (IF r[8] = 1 /\ ~valid /\ ~alias THEN {<<"C19", "pn-inconsistent-accepted">>} ELSE {})
+           \cup (IF r[8] = 1 /\ ~valid /\ ~alias THEN {<<"NOTE", "pn-non-natural-input-accepted">>} ELSE {})
            \cup (IF r[1] = 4 /\ valid /\ r[8] # 1 THEN {<<"C19", "pn-valid-rejected">>} ELSE {})
            \cup (IF r[8] = 1 /\ ~(r[15] \in 0..127) THEN {<<"C19", "pn-encoder-fails-after-deserialize">>} ELSE {})
            \cup (IF valid /\ r[8] = 1 /\ Sub(r, 9, 6) # msg THEN {<<"C19", "pn-value-changed">>} ELSE {})
@@ -347,7 +359,7 @@ SerdeViol(r) ==
                alias == r[6] = 1 /\ r[11] = 1 IN
            (IF r[6] = -2 THEN {<<"C19", "deserialize-panics">>} ELSE {})
            \cup (IF r[6] = 1 /\ ~StructuredValid(Sub(r, 7, 4)) THEN {<<"C19", "structured-invalid-accepted">>} ELSE {})
-           \cup (IF r[6] = 1 /\ ~valid /\ ~alias THEN {<<"C19", "structured-invalid-accepted">>} ELSE {})
+           \cup (IF r[6] = 1 /\ ~valid /\ ~alias THEN {<<"NOTE", "structured-non-natural-input-accepted">>} ELSE {})
            \cup (IF r[1] = 5 /\ valid /\ r[6] # 1 THEN {<<"C19", "structured-valid-rejected">>} ELSE {})
            \cup (IF valid /\ r[6] = 1 /\ Sub(r, 7, 4) # x THEN {<<"C19", "structured-value-changed">>} ELSE {})
       [] r[1] = 6 ->        \* ShortMessageType
@@ -355,6 +367,10 @@ SerdeViol(r) ==
            \cup (IF r[3] = 1 /\ r[4] # r[2] THEN {<<"C19", "type-value-changed">>} ELSE {})
       [] r[1] = 7 ->        \* natural representation round trip
            (IF r[7] = 1 /\ r[8] = 1 THEN {} ELSE {<<"C19", "natural-representation-roundtrip">>})
+      [] r[1] = 17 ->       \* the same in a format that presents structs as sequences: a Deserialize that only
+                            \* reads maps may refuse; if it accepts, the value is equal
+           (IF r[7] = -2 THEN {<<"C19", "deserialize-panics">>} ELSE {})
+           \cup (IF r[7] = 1 /\ r[8] # 1 THEN {<<"C19", "natural-representation-roundtrip">>} ELSE {})
 
 (******************************** table `misc` *****************************)
 (* growth beyond the listed properties: derived Ord / Eq / Hash follow the table order *)
